@@ -70,8 +70,15 @@ fn gen_case(tr: &mut Trace, idx: u64, subseed: u64, thorough: bool, kind: &str, 
     let mut g = Gen::new(subseed);
     g.multi_job_batches = kind == "multibatch";
     g.fail_before_start = kind == "failstart";
-    for _ in 0..actions { g.action(); }
-    let mut recs = g.out.clone();
+    let mut recs;
+    if kind == "sim" {
+        // the journal a REAL server run persists: the simulated cluster (sim.rs) with a journal sink
+        recs = vec![Rec::Start("verif-uid".to_string())];
+        recs.extend(sim_journal(subseed, actions + 15));
+    } else {
+        for _ in 0..actions { g.action(); }
+        recs = g.out.clone();
+    }
     let mut rng = Rng::new(subseed ^ 0xABCDEF);
     let mut what = "-";
     if kind == "malformed" {
@@ -117,7 +124,7 @@ fn gen_case(tr: &mut Trace, idx: u64, subseed: u64, thorough: bool, kind: &str, 
         for e in 0..ex.hdr { tr.op(&format!("hdrcut {e}")); tr.out(&format!("res {}", hdr_cut(&ex, e))); }
     }
     // --- prune at action boundaries
-    if kind != "malformed" {
+    if kind != "malformed" && kind != "sim" {
         let pts = g.prune_points.clone();
         let n_prunes = if thorough { 10 } else { 3 };
         for _ in 0..n_prunes {
@@ -143,6 +150,18 @@ fn gen_case(tr: &mut Trace, idx: u64, subseed: u64, thorough: bool, kind: &str, 
         }
     }
     tr.end();
+}
+
+/// run one simulated-cluster case with the journal sink on and decode what the real `EventStreamer` persisted
+fn sim_journal(subseed: u64, steps: u32) -> Vec<Rec> {
+    let mut sim = crate::sim::Sim::new_cfg(subseed, true);
+    for _ in 0..steps {
+        if sim.panicked.is_some() { break; }
+        sim.step();
+    }
+    if sim.panicked.is_none() { sim.drain(60); }
+    let evs = sim.world.journal.borrow();
+    evs.iter().filter_map(Rec::from_event).collect()
 }
 
 fn hdr_cut(ex: &Exec, e: u64) -> String {
@@ -202,7 +221,7 @@ pub fn main(mode: &str, args: &[String]) {
             for k in 0..a.cases {
                 let subseed = a.case_seed(k);
                 // per 8 cases: 1 malformed, 1 with batches spanning two jobs, 1 with failures before the first start
-                let kind = match k % 8 { 3 => "failstart", 5 => "malformed", 6 => "multibatch", _ => "producible" };
+                let kind = match k % 8 { 1 | 4 => "sim", 3 => "failstart", 5 => "malformed", 6 => "multibatch", _ => "producible" };
                 let kind = a.value("--kind").unwrap_or(kind).to_string();
                 gen_case(&mut tr, a.shard * 1_000_000 + k, subseed, a.thorough, &kind, actions);
                 tr.flush();
